@@ -146,7 +146,7 @@ def eval_migration(f, path, records, target_empty=True):
         return "UNSUPPORTED-FORM: %s" % e, log
 
 
-def eval_entry_put(f, head, empty=False):
+def eval_entry_put(f, head, empty=False, ts_equal=False, head_record_exists=True):
     """StoreInstance::entry_put evaluated: Store::modify runs the transaction body; `head` = None (author unknown) or
     cmp((timestamp,key) of the entry, stored head) in {-1,0,1}. Returns (rendered result, table writes)."""
     from . import feval as E
@@ -154,11 +154,21 @@ def eval_entry_put(f, head, empty=False):
     log = []
 
     def oracle(kind, name, payload, site):
-        if kind == "cmp":
+        if kind in ("cmp", "eq"):
             a, b2 = str(name), str(payload)
-            if "head-row" in a + b2 and head is not None:
-                return head if "head-row" in b2 else -head
-            return None
+            if head is None or "head-" not in a + b2:
+                return None
+            rev = "head-" in a
+            if "head-key" in a + b2 and "head-ts" in a + b2:        # the (timestamp, key) pairs
+                c = head
+            elif "head-ts" in a + b2:                               # the timestamps alone
+                c = 0 if (ts_equal or head == 0) else head
+            else:                                                   # the keys alone
+                c = head if (ts_equal or head == 0) else None
+            if c is None:
+                return None
+            c = -c if rev else c
+            return (c == 0) if kind == "eq" else c
         if kind != "call":
             return None
         t, args, it = payload
@@ -169,6 +179,9 @@ def eval_entry_put(f, head, empty=False):
         if name in ("as_mut", "as_ref") and names and names[0] in ("self.store", "store"):
             return args[0]
         ct = tables.call_table(t, types)
+        if ct and ct[1] == "get" and ct[0] == "records":
+            log.append((ct[0], "get", names[1]))
+            return E.Ok(E.Some(E.Tok("recordguard"))) if head_record_exists else E.Ok(E.NONE)
         if ct and ct[1] == "get":
             log.append((ct[0], "get", names[1]))
             return E.Ok(E.Some(E.Tok("headguard"))) if head is not None else E.Ok(E.NONE)
@@ -176,7 +189,7 @@ def eval_entry_put(f, head, empty=False):
             log.append((ct[0], ct[1], names[1], names[2] if len(names) > 2 else None))
             return E.Ok(E.NONE)
         if name == "value" and names == ["headguard"]:
-            return E.Tok("head-row")
+            return ("tuple", [E.Tok("head-ts"), E.Tok("head-key")])
         if name == "is_empty" and names and names[0].strip("&*") in ("e", "entry(e)", "record(e)"):
             return E.Int(1 if empty else 0)      # the entry being stored is a deletion marker
         if name in ("to_bytes", "as_bytes") and names:
@@ -234,6 +247,7 @@ def r2(ctx):
     for head, label, empty in [(None, "author-unknown", False), (1, "newer-than-head", False), (0, "equal-to-head", False), (-1, "older-than-head", False),
                                (None, "author-unknown,deletion-marker", True), (1, "newer-than-head,deletion-marker", True), (-1, "older-than-head,deletion-marker", True)]:
         got, log = eval_entry_put(f, head, empty)
+        log = [x for x in log if not (x[0] == "records" and x[1] == "get")]
         w = {x[0]: x for x in log if x[1] != "get"}
         rec, byk, lat = w.get("records"), w.get("records_by_key"), w.get("latest_per_author")
 
@@ -248,6 +262,15 @@ def r2(ctx):
             oklat = oklat and len(kc) == 2 and _has(kc[0], "namespace") and _has(kc[1], "author") and len(vc) == 2 and _has(vc[0], "timestamp") and _has(vc[1], "key")
         ctx.check(got == "Ok(())" and okrec and okbyk and oklat, "C18.R2", EP, "entry_put[%s]" % label,
                   "returns %s, writes %s; spec: records keyed (namespace, author, key), by-key index (namespace, key, author) - for deletion markers too: they take part in every key-ordered answer -, head (namespace, author) -> (timestamp, key) written unless the stored head is newer" % (got, log), ep.sp)
+    # a head names an entry that exists: when this insert pruned the entry the head names (same timestamp, the new key is a prefix
+    # of the head's key, so (timestamp, key) compares Less) the head moves to the new entry - it is the greatest (timestamp, key)
+    # among the survivors, which is what migration 001 rebuilds; while that entry is still there the head stays
+    for ts_equal, exists, label, want in ((True, False, "same-timestamp,head-entry-pruned-by-this-insert", True), (True, True, "same-timestamp,head-entry-still-stored", False),
+                                          (False, False, "older-timestamp", False)):
+        got, log = eval_entry_put(f, -1, False, ts_equal=ts_equal, head_record_exists=exists)
+        wrote = any(x[0] == "latest_per_author" and x[1] != "get" for x in log)
+        ctx.check(got == "Ok(())" and wrote == want, "C18.R2", EP, "entry_put[below-head,%s]" % label,
+                  "returns %s, head %s; spec: %s (the maintained head must be the one a rebuild from the surviving records gives)" % (got, "rewritten" if wrote else "kept", "rewritten" if want else "kept"), ep.sp)
     # the reader of the index inverts the permutation (shared with C05.R6)
     from . import C05
     sub = type(ctx)(ctx.prop, ctx.tier, ctx.facts, ctx.cfg)
